@@ -50,7 +50,11 @@ def cases(rng, tier):
             elif r < pa + 0.8: ops.append(["k", x])
             elif r < pa + 0.9: ops.append(["r"])
             else: ops.append(["m"])
-        yield {"t": "uf", "kind": kind, "elems": _elements(kind, ne, rng), "ops": ops}
+        c = {"t": "uf", "kind": kind, "elems": _elements(kind, ne, rng), "ops": ops}
+        if rng.random() < 0.3:
+            c["init"] = {"idx": [rng.randrange(ne) for _ in range(rng.randint(0, ne + 2))], "as": rng.choice(["list", "tuple", "iter", "keys"])}
+        if rng.random() < 0.3: c["decoy"] = rng.choice(["empty", "init"])
+        yield c
     # deep trees: binomial merges of equal-size components through their current representatives, in either
     # argument order, with NO query before the first whole-structure query (path halving must not have flattened them)
     for _ in range(n_uf // 4):
@@ -110,13 +114,18 @@ def cases(rng, tier):
                 if r < 0.55: ops.append(["p", i, prio()])
                 elif r < 0.9: ops.append(["o"])
                 else: ops.append(["e"])
-        yield {"t": "pq", "ops": ops, "regime": regime}
+        c = {"t": "pq", "ops": ops, "regime": regime}
+        if rng.random() < 0.4: c["elems"] = "mixed"
+        if rng.random() < 0.4: c["prio_rep"] = rng.choice(["int", "numpy"])
+        if rng.random() < 0.3: c["decoy"] = "empty"
+        yield c
 
 
 def model_request(case):
     if case["t"] == "uf":
-        toks = ["uf", str(len(case["ops"]))]
-        for o in case["ops"]:
+        ops = [["a", i] for i in (case.get("init") or {"idx": []})["idx"]] + case["ops"]
+        toks = ["uf", str(len(ops))]
+        for o in ops:
             toks += [str(t) for t in o]
         return " ".join(toks)
     toks = ["pq", str(len(case["ops"]))]
@@ -127,6 +136,66 @@ def model_request(case):
 
 def _hashable(e):
     return tuple(e) if isinstance(e, list) else e
+
+
+def _new_uf(case, elems):
+    """the instance under test: empty, or built from an initial container (list / tuple / iterator / dict keys, possibly with
+    repetitions) - the documented equivalent of adding the elements in that order"""
+    from mouette.utils.unionfind import UnionFind
+    init = case.get("init")
+    if init is None: return UnionFind()
+    xs = [elems[i] for i in init["idx"]]
+    cont = {"list": list, "tuple": tuple, "iter": iter, "keys": lambda l: dict.fromkeys(l).keys()}[init["as"]](xs)
+    return UnionFind(cont)
+
+
+class _Decoy:
+    """a second, independent instance of the same class that is used between the operations of the history: nothing done to it
+    may show in the instance under test (no state shared between instances)"""
+
+    def __init__(self, case, elems=None):
+        self.on = bool(case.get("decoy"))
+        if not self.on: return
+        if case["t"] == "uf":
+            from mouette.utils.unionfind import UnionFind
+            self.o = UnionFind(list(elems)) if case["decoy"] == "init" else UnionFind()
+            self.elems = list(elems)
+        else:
+            from mouette.utils.priority_queue import PriorityQueue
+            self.o = PriorityQueue()
+        self.k = 0
+
+    def poke(self):
+        if not self.on: return
+        self.k += 1
+        try:
+            if hasattr(self, "elems"):
+                n = len(self.elems)
+                self.o.union(self.elems[self.k % n], self.elems[(self.k * 7 + 3) % n])
+                if self.k % 3 == 0: self.o.find(self.elems[(self.k * 5) % n])
+            else:
+                self.o.push(("decoy", self.k), float((self.k * 37) % 11 - 20))
+                if self.k % 4 == 0: self.o.pop()
+        except Exception:  # noqa  (the decoy's own behaviour is not under test here)
+            pass
+
+
+def _pq_elem(case, i):
+    """element pushed as item i: its position (an int), or - `mixed` - ints, strings and tuples in turn (the element types the
+    statement names; values of different types are not orderable: the queue orders by priority only, ties included)"""
+    if case.get("elems") != "mixed": return i
+    return i if i % 3 == 0 else f"e{i}" if i % 3 == 1 else (i, "t")
+
+
+def _pq_prio(case, t):
+    """priority as the caller passes it: float, or - `prio_rep` - Python int / numpy scalar where the value allows"""
+    w = _prio(t)
+    rep = case.get("prio_rep")
+    if rep == "int" and w == w and abs(w) != math.inf and float(w).is_integer(): return int(w)
+    if rep == "numpy":
+        import numpy as np
+        return np.float64(w) if (abs(w) == math.inf or not float(w).is_integer()) else np.int64(int(w))
+    return w
 
 
 def _uf_labels(uf):
@@ -146,9 +215,11 @@ def _uf_labels(uf):
 def _run_uf(case):
     from mouette.utils.unionfind import UnionFind
     elems = [_hashable(e) for e in case["elems"]]
-    uf = UnionFind()
+    uf = _new_uf(case, elems)
+    decoy = _Decoy(case, elems)
     recs, checks = [], []
     for o in case["ops"]:
+        decoy.poke()
         k = o[0]
         x = elems[o[1]] if len(o) > 1 else None
         ans = "-"
@@ -203,15 +274,22 @@ def _fmt_prio(w):
 def _run_pq(case):
     from mouette.utils.priority_queue import PriorityQueue
     q = PriorityQueue()
+    decoy = _Decoy(case)
     out = []
     for o in case["ops"]:
+        decoy.poke()
         if o[0] == "p":
-            q.push(o[1], _prio(o[2])); out.append("-")
+            try:
+                q.push(_pq_elem(case, o[1]), _pq_prio(case, o[2])); out.append("-")
+            except Exception as e:  # noqa
+                out.append(f"err:Other({type(e).__name__})")
         elif o[0] == "o":
             try:
-                it = q.pop(); out.append(_fmt_prio(it.priority))
+                it = q.pop(); out.append(_fmt_prio(float(it.priority)))
             except IndexError:
                 out.append("err:Index")
+            except Exception as e:  # noqa
+                out.append(f"err:Other({type(e).__name__})")
         else:
             out.append("1" if q.empty() else "0")
     return " | ".join(out)
@@ -229,8 +307,14 @@ def oracle(case):
     if case["t"] == "uf":
         from mouette.utils.unionfind import UnionFind
         elems = [_hashable(e) for e in case["elems"]]
-        uf = UnionFind()
+        try:
+            uf = _new_uf(case, elems)
+        except Exception as e:  # noqa
+            return [{"key": f"C20/uf/init/raises/{case['kind']}", "what": f"UnionFind(elements) raised {type(e).__name__}", "detail": str(e)}]
+        decoy = _Decoy(case, elems)
         present, pairs = [], []
+        for i in (case.get("init") or {"idx": []})["idx"]:
+            if elems[i] not in present: present.append(elems[i])
 
         def classes():
             # reference partition by naive closure
@@ -247,6 +331,7 @@ def oracle(case):
             return lab
         import copy
         for step, o in enumerate(case["ops"]):
+            decoy.poke()
             k, x = o[0], (elems[o[1]] if len(o) > 1 else None)
             try:
                 if k == "r": uf.roots()
@@ -326,10 +411,16 @@ def oracle(case):
     else:
         from mouette.utils.priority_queue import PriorityQueue
         q = PriorityQueue()
+        decoy = _Decoy(case)
         pending = []
         for step, o in enumerate(case["ops"]):
+            decoy.poke()
             if o[0] == "p":
-                q.push(o[1], _prio(o[2])); pending.append((o[1], _prio(o[2])))
+                try:
+                    q.push(_pq_elem(case, o[1]), _pq_prio(case, o[2]))
+                except Exception as e:  # noqa
+                    out.append({"key": f"C20/pq/push/raises/{type(e).__name__}", "what": f"push raised {type(e).__name__}", "detail": f"step {step} op {o}: {e}"}); return out
+                pending.append((_pq_elem(case, o[1]), _prio(o[2])))
             elif o[0] == "o":
                 if not pending:
                     try:
@@ -337,7 +428,10 @@ def oracle(case):
                     except IndexError:
                         pass
                 else:
-                    it = q.pop()
+                    try:
+                        it = q.pop()
+                    except Exception as e:  # noqa
+                        out.append({"key": f"C20/pq/pop/raises/{type(e).__name__}", "what": f"pop raised {type(e).__name__} on a non-empty queue", "detail": f"step {step}: {e}"}); return out
                     if (it.x, it.priority) not in pending:
                         out.append({"key": "C20/pq/pop-not-pending", "what": "popped item was not pending", "detail": f"step {step}"}); return out
                     if it.priority > min(p for _, p in pending):
@@ -351,6 +445,9 @@ def oracle(case):
 
 
 def compare(case, model, impl):
+    if case["t"] == "uf" and case.get("init"):
+        # the constructor's elements are `add`s for the model; the implementation has no record for them
+        model = " | ".join(model.split(" | ")[len(case["init"]["idx"]):])
     return None if model == impl else "model trace differs from implementation trace"
 
 
@@ -364,8 +461,13 @@ def nontrivial(case, obs):
 
 def classify(case, obs):
     ks = [case["t"] + ":" + o[0] for o in case["ops"]]
-    if case["t"] == "uf": ks.append("uf-kind:" + case["kind"])
-    else: ks.append("pq-regime:" + case.get("regime", "?"))
+    if case["t"] == "uf":
+        ks.append("uf-kind:" + case["kind"])
+        ks.append("uf-built:" + ("empty" if not case.get("init") else "from-" + case["init"]["as"]))
+    else:
+        ks.append("pq-regime:" + case.get("regime", "?"))
+        ks.append("pq-elements:" + case.get("elems", "ints")); ks.append("pq-priorities-as:" + case.get("prio_rep", "float"))
+    ks.append("other-instance-in-use:" + str(bool(case.get("decoy"))))
     ks += ["err:" + r.split(";")[0] for r in obs.split(" | ") if r.startswith("err")]
     return ks
 
